@@ -1522,13 +1522,15 @@ sf_command	(SNDFILE *sndfile, int command, void *data, int datasize)
 					return SF_TRUE ;
 					} ;
 
-				/* The container cannot store this map : a map accepted before stays in force (the handler derives its tag / mask from it again). */
-				if (old_map != NULL)
-				{	free (psf->channel_map) ;
-					psf->channel_map = old_map ;
-					if (psf->command)
-						psf->command (psf, command, NULL, 0) ;
-					} ;
+				/*
+				**	The container cannot store this map : the call has no effect. A map accepted
+				**	before stays in force (the handler derives its tag / mask from it again), and
+				**	without one the handle has no channel map, as before the call.
+				*/
+				free (psf->channel_map) ;
+				psf->channel_map = old_map ;
+				if (old_map != NULL && psf->command)
+					psf->command (psf, command, NULL, 0) ;
 				} ;
 			return SF_FALSE ;
 
